@@ -193,7 +193,7 @@ def centroid(data, dx=None, unit='spatial'):
         if unit == spatial, referenced to the origin
 
     """
-    center = (int(np.ceil(c/2)) for c in data.shape)
+    center = (c//2 for c in data.shape)
     com = ndimage.center_of_mass(data)
     if unit != 'spatial':
         return com
